@@ -43,7 +43,10 @@ Arguments s_limit {E}. Arguments s_offset {E}. Arguments s_withs {E}. Arguments 
 Arguments s_settings {E}. Arguments s_unions {E}.
 
 Inductive expr :=
- | Raw (s : string)                         (* RawObject *)
+ | Raw (s : string)                         (* RawObject holding an SQL fragment *)
+ | Id (s : string)                          (* RawObject holding an identifier path: column, alias.column, table *)
+ | QRaw (s : string)                        (* 'name' spliced by fmt.Sprintf WITHOUT escaping (lexer-restricted identifiers) *)
+ | Idx (e k : expr)                         (* e[k] : map / array subscript built by fmt.Sprintf *)
  | StrV (s : string)                        (* StringVal: printed quoted and escaped *)
  | IntV (z : Z)                             (* IntVal *)
  | FloatV (txt : string)                    (* FloatVal: txt = fmt.Sprintf("%f", v), supplied as an oracle value *)
@@ -105,7 +108,7 @@ Definition Lt a b := LOp OLt [a; b].
 Definition Le a b := LOp OLe [a; b].
 Definition Gt a b := LOp OGt [a; b].
 Definition Ge a b := LOp OGe [a; b].
-Definition SimpleCol (name alias : string) := Col (Raw name) alias.
+Definition SimpleCol (name alias : string) := Col (Id name) alias.
 
 (* ---------- the mutating builder methods of Select, functionally ---------- *)
 (* AndWhere/AndHaving/AndPreWhere: nil -> And(clauses); an existing top-level "and" is appended to;
